@@ -150,6 +150,70 @@ def family(max_depth, with_macros=False, leaves=None, scoped=None):
     return out
 
 
+# ---------------------------------------------------------------------------------------------
+# Macro family (C18 with macros / call blocks, C03 closure soundness)
+#
+# A macro `m(<signature>)` whose body reads `v` (and `w`) under different control flow, defined after an
+# optional template-level `{% set v = "T" %}`, then called.  Arguments are context variables p1/p2 so that a
+# bytecode path can be driven natively.  Every read of v that the body's own frames do not bind prints
+# `[value]`: with the template-level set it must print [T] (or [M] after a set inside the macro), never the
+# context's [CTX] and never [] - that is the native oracle of the closure check.
+# ---------------------------------------------------------------------------------------------
+MACRO_PREFIX = ['', '{% set v = "T" %}', '{% if p2 %}{% set v = "T" %}{% endif %}', '{% for v in l1 %}{% endfor %}{% set w = "T" %}']
+MACRO_SIGS = [('a', 'p1'), ('a, b=a', 'p1'), ('a=v, b=1', ''), ('a, b=v', 'p1'), ('a=a', ''), ('a, b=a, c=b', 'p1'), ('a, v=1', 'p1'), ('a, b=w', 'p1')]
+MACRO_BODIES = [
+    '[v={{ v }}]',
+    '{% if a %}{% set v = "M" %}{% endif %}[v={{ v }}]',
+    '{% for v in a %}{{ v }}{% endfor %}[v={{ v }}]',
+    '{% with v = a %}{{ v }}{% endwith %}[v={{ v }}]',
+    '{% set v = v %}[v={{ v }}]',
+    '{% for x in a %}{% set v = x %}{% else %}[v={{ v }}]{% endfor %}',
+    '{% if a %}{% set v = "M" %}{% else %}{% set w = "M" %}{% endif %}[v={{ v }}][w={{ w }}]',
+    '{% macro inner() %}[v={{ v }}]{% endmacro %}{{ inner() }}',
+    '{% if a %}{% if b %}{% set v = "M" %}{% endif %}{% endif %}[v={{ v }}]',
+    '{% for x in a %}{% if x %}{% set v = "M" %}{% endif %}[v={{ v }}]{% endfor %}',
+    '{% if a %}{% set v = "M" %}{% elif b %}{% set v = "M" %}{% else %}{% endif %}[v={{ v }}]',
+    '{% set v %}x{% endset %}[v={{ v }}]',
+    '{% for x in a %}{% else %}{% set v = "M" %}{% endfor %}[v={{ v }}]',
+    '{% filter upper %}{% set v = "M" %}{% endfilter %}[v={{ v }}]',
+]
+CALLER_BODIES = ['[x={{ x }}{{ y }}]', '[v={{ v }}]', '{% if x %}{% set v = "M" %}{% endif %}[v={{ v }}]', '{% set x = v %}[x={{ x }}]']
+CALLER_SIGS = ['x', 'x, y=x', 'x, y=v', 'x=v, y=1']
+
+
+def macro_family():
+    out = []
+    for pre in MACRO_PREFIX:
+        for sig, arg in MACRO_SIGS:
+            for body in MACRO_BODIES:
+                src = '%s{%% macro m(%s) %%}%s{%% endmacro %%}{{ m(%s) }}|END' % (pre, sig, body, arg)
+                out.append(dict(chain=['macro', sig], leaf=body, src=src, prefix=MACRO_PREFIX.index(pre)))
+        for sig in CALLER_SIGS:
+            for body in CALLER_BODIES:
+                src = '%s{%% macro m() %%}<{{ caller(p1) }}>{%% endmacro %%}{%% call(%s) m() %%}%s{%% endcall %%}|END' % (pre, sig, body)
+                out.append(dict(chain=['callblock', sig], leaf=body, src=src, prefix=MACRO_PREFIX.index(pre)))
+    return out
+
+
+def closure_oracle(prefix, ctx, out):
+    """Names that the template assigns unconditionally before the macro is defined must be seen by the macro
+    (value T, or M after a set inside the macro): a read printed as `n=CTX..` (render context) or `n=]`
+    (undefined) shows the closure missed the name."""
+    names = {1: ['v'], 2: ['v'] if ctx.get('p2') else [], 3: ['w']}.get(prefix, [])
+    for n in names:
+        if ('%s=CTX' % n) in out or ('%s=]' % n) in out:
+            return 'the macro reads %s as %r' % (n, out[:80])
+    return None
+
+
+def macro_contexts():
+    out = []
+    for p1 in (0, 1, [], [0], [1], [0, 1]):
+        for p2 in (0, 1):
+            out.append({'p1': p1, 'p2': p2, 'v': 'CTXV', 'w': 'CTXW', 'b': p2, 'a': 'CTXA', 'x': 'CTXX', 'l1': [1]})
+    return out
+
+
 def sample(progs, n, seed):
     rnd = random.Random(seed)
     if len(progs) <= n:
